@@ -1,8 +1,8 @@
 package flight12
 
 //symgo:pkg github.com/pion/dtls/v3/internal/flight/flight12
-//symgo:param HSFULL quick=0 thorough=1
-//symgo:param HSAUTH quick=1 thorough=3
+//symgo:param HSVARY quick=1 thorough=2
+//symgo:param HSAUTH quick=3 thorough=3
 //symgo:param HSSUITE quick=3 thorough=4
 //symgo:param HSEMS quick=2 thorough=3
 //symgo:param HSSRTP quick=2 thorough=3
@@ -137,7 +137,15 @@ type zzHsSigCheck struct {
 	certs        [][]byte
 }
 
+// zzHsWireMsg is one handshake message as it crossed the wire (12-byte handshake header + body).
+type zzHsWireMsg struct {
+	typ        handshake.Type
+	fromClient bool
+	raw        []byte
+}
+
 var (
+	zzHsWire       []zzHsWireMsg
 	zzHsHashInputs [][]byte
 	zzHsPRFLog     []zzHsPRFCall
 	zzHsDHLog      []zzHsDHCall
@@ -150,6 +158,7 @@ var (
 func zzHsReset() {
 	zzHsHashInputs, zzHsPRFLog, zzHsDHLog, zzHsCipherLog, zzHsKeySigLog, zzHsCertVerLog = nil, nil, nil, nil, nil, nil
 	zzHsKeypairs = 0
+	zzHsWire = nil
 }
 
 func zzHsClone(b []byte) []byte { return append([]byte{}, b...) }
@@ -260,19 +269,8 @@ func zzHsSend(from, to *zzHsPeer, pkts []*dtlsflight.Packet) {
 		h.Header.MessageSequence = uint16(from.state.HandshakeSendSequence)
 		from.state.HandshakeSendSequence++
 		raw, err := h.Marshal()
-		if err != nil {
-			switch h.Message.Type() {
-			case handshake.TypeCertificate:
-				zzsymFail("hs/certificate_marshals")
-			case handshake.TypeServerKeyExchange:
-				zzsymFail("hs/server_key_exchange_marshals")
-			case handshake.TypeCertificateRequest:
-				zzsymFail("hs/certificate_request_marshals")
-			case handshake.TypeServerHello:
-				zzsymFail("hs/server_hello_marshals")
-			}
-		}
 		zzsymAssert(err == nil, "hs/message_marshals")
+		zzHsWire = append(zzHsWire, zzHsWireMsg{typ: h.Header.Type, fromClient: from.isClient, raw: zzHsClone(raw)})
 		from.cache.Push(raw, p.Record.Header.Epoch, h.Header.MessageSequence, h.Header.Type, from.isClient)
 		to.cache.Push(raw, p.Record.Header.Epoch, h.Header.MessageSequence, h.Header.Type, from.isClient)
 	}
@@ -389,13 +387,32 @@ type zzHsWorld struct {
 	clientAuth               dtlsconfig.ClientAuthType
 }
 
-// zzHsFocus is the dimension that varies in the quick tier (-1: all dimensions vary, full product).
-var zzHsFocus int
+// zzHsFocus, zzHsFocus2 are the configuration dimensions that vary on this path (HSVARY=1: one dimension,
+// HSVARY=2: every unordered pair of dimensions); all other dimensions keep a default in which every feature
+// is configured on both sides. The full product of all dimensions (millions of configurations) is not run.
+var zzHsFocus, zzHsFocus2 int
 
-// zzHsDim returns a configuration choice 0..n-1 for dimension dim: enumerated when the full product is
-// requested (thorough tier) or dim is the focused dimension, otherwise the default value dflt.
+func zzHsPickFocus() {
+	if zzsymParam("HSVARY") <= 1 {
+		zzHsFocus = zzsymChoice("focus_dimension", zzDimCount)
+		zzHsFocus2 = zzHsFocus
+		return
+	}
+	k := zzsymChoice("focus_pair", zzDimCount*(zzDimCount+1)/2)
+	for i := 0; i < zzDimCount; i++ {
+		for j := i; j < zzDimCount; j++ {
+			if k == 0 {
+				zzHsFocus, zzHsFocus2 = i, j
+			}
+			k--
+		}
+	}
+}
+
+// zzHsDim returns a configuration choice 0..n-1 for dimension dim: enumerated when dim is a focused
+// dimension, otherwise the default value dflt.
 func zzHsDim(name string, dim, n, dflt int) int {
-	if zzHsFocus < 0 || zzHsFocus == dim {
+	if zzHsFocus == dim || zzHsFocus2 == dim {
 		return zzsymChoice(name, n)
 	}
 	if dflt >= n {
@@ -417,10 +434,7 @@ const (
 // zzHsConfigure builds both configurations from zzsymChoice / symbolic values within the tier bounds.
 func zzHsConfigure() *zzHsWorld {
 	w := &zzHsWorld{}
-	zzHsFocus = -1
-	if zzsymParam("HSFULL") == 0 {
-		zzHsFocus = zzsymChoice("focus_dimension", zzDimCount)
-	}
+	zzHsPickFocus()
 	w.auth = zzHsDim("auth_mode", zzDimAuth, zzsymParam("HSAUTH"), 0)
 	cs := zzHsSuites(w.auth, zzHsDim("client_suites", zzDimSuite, zzsymParam("HSSUITE"), 1))
 	ss := zzHsSuites(w.auth, zzHsDim("server_suites", zzDimSuite, zzsymParam("HSSUITE"), 2))
@@ -543,7 +557,7 @@ func zzHsHello(w *zzHsWorld) bool {
 
 // zzHsAssertNegotiated: the committed negotiation results of both State12 values agree and are what the two
 // configurations allow.
-func zzHsAssertNegotiated(w *zzHsWorld) {
+func zzHsAssertNegotiated(w *zzHsWorld, resumed bool) {
 	c, s := w.client.state, w.server.state
 
 	// cipher suite: same id, separate instances, in both configured lists
@@ -609,6 +623,10 @@ func zzHsAssertNegotiated(w *zzHsWorld) {
 		zzsymCover("cid_off")
 	}
 
+	if resumed {
+		return // session id, certificates and key exchange are checked by the caller
+	}
+
 	// session id: no session store on either side
 	zzsymAssert(len(c.SessionID) == 0 && len(s.SessionID) == 0, "agree/no_session_id_without_store")
 
@@ -655,6 +673,235 @@ func zzHelloAgreement12() {
 	if !zzHsHello(w) {
 		return
 	}
-	zzHsAssertNegotiated(w)
+	zzHsAssertNegotiated(w, false)
 	zzsymCover("agreed")
+}
+
+// zzHsSessionTranscript is the harness' own reading of RFC 7627 section 3 / RFC 6347 section 4.2.6: all
+// handshake messages in the order they were sent, starting at the ClientHello that the ServerHello answers
+// (the cookie-less ClientHello and the HelloVerifyRequest are excluded), up to and including ClientKeyExchange.
+func zzHsSessionTranscript() []byte {
+	start := 0
+	for i, m := range zzHsWire {
+		if m.typ == handshake.TypeClientHello {
+			start = i // the last ClientHello
+		}
+	}
+	out := []byte{}
+	for _, m := range zzHsWire[start:] {
+		out = append(out, m.raw...)
+		if m.typ == handshake.TypeClientKeyExchange {
+			break
+		}
+	}
+	return out
+}
+
+// master_mirror (+ composition with keyblock_mirror). After the hello exchange of zzHelloAgreement12 (same
+// configuration space; every authentication mode - certificate, PSK, ECDHE-PSK - also in the quick tier) the
+// client runs the real flight5Generate (handleServerKeyExchange happened in flight3Parse; initializeCipherSuite
+// derives the master secret and initialises the cipher suite) and the server runs the real flight4Parse on the
+// delivered Certificate / ClientKeyExchange / CertificateVerify / Finished. Diffie-Hellman is an uninterpreted
+// symmetric function on a toy group, P_hash and the hash are uninterpreted, signature checks accept. Proved:
+// both sides call the key agreement with their own private key and the public key the peer sent, on the same
+// curve; both issue the same master-secret PRF request - same secret, label "master secret" with
+// client_random || server_random, or "extended master secret" with the session hash when EMS was negotiated -
+// and the session-hash input of both sides is byte-for-byte the transcript ClientHello..ClientKeyExchange as
+// sent (RFC 7627); the 48-byte master secrets are equal; the record-protection keys handed to the cipher
+// constructors are mirrored (client write = server read and vice versa); with client authentication the
+// server's view of the peer certificate chain is the chain the client's callback returned; the server moves to
+// flight 6.
+//
+//symgo:entry covers=master_agreed,ems_master,plain_master,auth_certificate,auth_psk,auth_ecdhe_psk,client_certificate
+func zzMasterMirror12() {
+	zzHsReset()
+	w := zzHsConfigure()
+	if !zzHsHello(w) {
+		return
+	}
+	ctx := context.Background()
+	c, s := w.client, w.server
+	nPRF0, nHash0 := len(zzHsPRFLog), len(zzHsHashInputs)
+	zzsymAssert(nPRF0 == 0, "mm/no_prf_before_key_exchange")
+
+	pkts, a, err := flight5Generate(c.conn, c.state, c.cache, c.cfg)
+	zzsymAssert(zzsymAnd(a == nil, err == nil), "mm/client_flight5_ok")
+	nPRFClient, nHashClient := len(zzHsPRFLog), len(zzHsHashInputs)
+	zzHsSend(c, s, pkts)
+	next, a, err := flight4Parse(ctx, s.conn, s.state, s.cache, s.cfg)
+	zzsymAssert(zzsymAnd(a == nil, err == nil), "mm/server_flight4_parse_ok")
+	zzsymAssert(next == Flight6, "mm/server_goes_to_flight6")
+	zzsymAssert(s.conn.queued == 1, "mm/server_releases_queued_records_after_keys")
+
+	cs, ss := c.state, s.state
+	ems := cs.ExtendedMasterSecret
+	zzsymAssert(ems == ss.ExtendedMasterSecret, "mm/same_ems_decision")
+	cr, sr := cs.LocalRandom.MarshalFixed(), ss.LocalRandom.MarshalFixed()
+
+	// ---- key agreement calls ----
+	ecdhe := ss.CipherSuite.KeyExchangeAlgorithm().Has(ciphersuite.KeyExchangeAlgorithmEcdhe)
+	if ecdhe {
+		zzsymAssert(len(zzHsDHLog) == 2, "mm/one_key_agreement_per_side")
+		dc, ds := zzHsDHLog[0], zzHsDHLog[1]
+		zzsymAssert(zzsymEqBytes(dc.priv, cs.LocalKeypair.PrivateKey), "mm/client_uses_own_private_key")
+		zzsymAssert(zzsymEqBytes(dc.pub, ss.LocalKeypair.PublicKey), "mm/client_uses_server_public_key")
+		zzsymAssert(zzsymEqBytes(ds.priv, ss.LocalKeypair.PrivateKey), "mm/server_uses_own_private_key")
+		zzsymAssert(zzsymEqBytes(ds.pub, cs.LocalKeypair.PublicKey), "mm/server_uses_client_public_key")
+		zzsymAssert(dc.curve == ds.curve, "mm/same_curve")
+	} else {
+		zzsymAssert(len(zzHsDHLog) == 0, "mm/plain_psk_no_key_agreement")
+	}
+
+	// ---- master secret PRF request: first request of each side ----
+	zzsymAssert(nPRFClient >= 2 && len(zzHsPRFLog) >= nPRFClient+2, "mm/prf_requests_per_side")
+	pc, ps := zzHsPRFLog[0], zzHsPRFLog[nPRFClient]
+	zzsymAssert(zzsymEqBytes(pc.secret, ps.secret), "mm/same_premaster_secret")
+	zzsymAssert(len(pc.secret) > 0, "mm/premaster_secret_not_empty")
+	zzsymAssert(zzsymEqBytes(pc.seed, ps.seed), "mm/same_master_secret_seed")
+	zzsymAssert(pc.length == 48 && ps.length == 48, "mm/master_secret_length")
+	zzsymAssert(pc.hash == ps.hash, "mm/same_prf_hash")
+	if ems {
+		// session hash: first hash evaluation of each side
+		zzsymAssert(nHashClient > nHash0 && len(zzHsHashInputs) > nHashClient, "mm/session_hash_computed_per_side")
+		hc, hs := zzHsHashInputs[nHash0], zzHsHashInputs[nHashClient]
+		want := zzHsSessionTranscript()
+		zzsymAssert(zzsymEqBytes(hc, hs), "mm/same_session_hash_input")
+		zzsymAssert(zzsymEqBytes(hc, want), "mm/client_session_hash_input_is_transcript")
+		zzsymAssert(zzsymEqBytes(hs, want), "mm/server_session_hash_input_is_transcript")
+		hlen := 32
+		if pc.hash == "sha384" {
+			hlen = 48
+		}
+		wantSeed := append([]byte("extended master secret"), zzsymUF("hash_"+pc.hash, hlen, want)...)
+		zzsymAssert(zzsymEqBytes(pc.seed, wantSeed), "mm/ems_seed_is_label_session_hash")
+		zzsymCover("ems_master")
+	} else {
+		wantSeed := append(append([]byte("master secret"), cr[:]...), sr[:]...)
+		zzsymAssert(zzsymEqBytes(pc.seed, wantSeed), "mm/seed_is_label_client_random_server_random")
+		zzsymCover("plain_master")
+	}
+	zzsymAssert(len(cs.MasterSecret) == 48, "mm/client_master_secret_48")
+	zzsymAssert(zzsymEqBytes(cs.MasterSecret, ss.MasterSecret), "mm/same_master_secret")
+
+	// ---- key expansion and record protection keys (composition with keyblock_mirror) ----
+	kc, ks := zzHsPRFLog[1], zzHsPRFLog[nPRFClient+1]
+	wantKE := append(append([]byte("key expansion"), sr[:]...), cr[:]...)
+	zzsymAssert(zzsymEqBytes(kc.secret, cs.MasterSecret) && zzsymEqBytes(ks.secret, ss.MasterSecret), "mm/key_expansion_keyed_with_master_secret")
+	zzsymAssert(zzsymEqBytes(kc.seed, wantKE) && zzsymEqBytes(ks.seed, wantKE), "mm/key_expansion_seed")
+	zzsymAssert(len(zzHsCipherLog) == 2, "mm/one_cipher_per_side")
+	cc, sc := zzHsCipherLog[0], zzHsCipherLog[1]
+	zzsymAssert(cc.alg == sc.alg, "mm/same_record_protection")
+	zzsymAssert(zzsymEqBytes(cc.localKey, sc.remoteKey) && zzsymEqBytes(cc.remoteKey, sc.localKey), "mm/write_keys_mirrored")
+	zzsymAssert(zzsymEqBytes(cc.localIV, sc.remoteIV) && zzsymEqBytes(cc.remoteIV, sc.localIV), "mm/write_ivs_mirrored")
+	zzsymAssert(zzsymEqBytes(cc.localMAC, sc.remoteMAC) && zzsymEqBytes(cc.remoteMAC, sc.localMAC), "mm/mac_keys_mirrored")
+	zzsymAssert(cs.CipherSuite.IsInitialized() && ss.CipherSuite.IsInitialized(), "mm/both_suites_initialised")
+
+	// ---- peer certificates ----
+	switch w.auth {
+	case 0:
+		zzsymCover("auth_certificate")
+		// the ServerKeyExchange signature the client checked is over client_random || server_random || params, under the presented chain
+		zzsymAssert(len(zzHsKeySigLog) == 1, "mm/client_checked_key_signature")
+		zzsymAssert(len(zzHsKeySigLog[0].certs) == 1 && zzsymEqBytes(zzHsKeySigLog[0].certs[0], w.serverChain[0]), "mm/key_signature_checked_against_presented_chain")
+		if w.clientAuth > dtlsconfig.NoClientCert {
+			zzsymAssert(len(ss.PeerCertificates) == len(w.clientChain), "mm/server_sees_client_chain_length")
+			for i := range w.clientChain {
+				zzsymAssert(zzsymEqBytes(ss.PeerCertificates[i], w.clientChain[i]), "mm/server_sees_presented_client_chain")
+			}
+			zzsymAssert(len(zzHsCertVerLog) == 1, "mm/server_checked_certificate_verify")
+			zzsymCover("client_certificate")
+		} else {
+			zzsymAssert(len(ss.PeerCertificates) == 0, "mm/no_client_chain_without_request")
+		}
+	case 1:
+		zzsymCover("auth_psk")
+	default:
+		if ecdhe {
+			zzsymCover("auth_ecdhe_psk")
+		}
+	}
+	zzsymCover("master_agreed")
+}
+
+// Resumed handshake (abbreviated, RFC 5246 section 7.3 / flight4b, flight5b). Same configuration space as
+// zzHelloAgreement12 with a session store on both sides: the client's store returns (session id of 2 symbolic
+// bytes, symbolic 48-byte master secret) for its session key; the server's store returns the same master secret
+// for exactly that session id (this is what a previous full handshake stored on both sides, see
+// zzMasterMirror12) and "unknown" for any other id. The real flight1Generate, flight0Parse (-> flight 4b),
+// flight4bGenerate, flight1Parse/flight3Parse/handleResumption (-> flight 5b), flight5bGenerate and flight4bParse
+// run over the real codecs; P_hash and the hash are uninterpreted. Proved: whenever both sides complete (client
+// verified the server Finished, server verified the client Finished), both hold the stored master secret and the
+// same session id, the same cipher suite, mirrored randoms and mirrored record-protection keys, and the freshly
+// negotiated extension state (SRTP profile, ALPN protocol, connection ids, RRC) agrees as in the full handshake.
+//
+//symgo:assume resumption: the server's session store maps the session id the client offers to the same master secret the client's store holds (established by the full handshake that created the session)
+//symgo:entry covers=resumed,srtp_on,srtp_off,alpn_on,alpn_off,cid_on,cid_off,server_aborts_flight4b
+func zzResumeAgreement12() {
+	zzHsReset()
+	w := zzHsConfigure()
+	ctx := context.Background()
+	c, s := w.client, w.server
+	sid := zzsymBytes("session_id", 2)
+	secret := zzsymBytes("stored_master_secret", 48)
+	var clientSaved, serverSaved [][]byte
+	c.cfg.HasSessionStore = true
+	c.cfg.GetSession = func(key []byte) ([]byte, []byte, error) { return zzHsClone(sid), zzHsClone(secret), nil }
+	c.cfg.SetSession = func(key, id, sec []byte) error { clientSaved = append(clientSaved, id, sec); return nil }
+	c.cfg.DelSession = func(key []byte) error { return nil }
+	s.cfg.HasSessionStore = true
+	s.cfg.GetSession = func(key []byte) ([]byte, []byte, error) {
+		if zzsymEqBytes(key, sid) {
+			return zzHsClone(key), zzHsClone(secret), nil
+		}
+		return nil, nil, nil
+	}
+	s.cfg.SetSession = func(key, id, sec []byte) error { serverSaved = append(serverSaved, id, sec); return nil }
+	s.cfg.DelSession = func(key []byte) error { return nil }
+	s.cfg.InsecureSkipHelloVerify = true
+
+	_, a, err := flight0Generate(s.conn, s.state, s.cache, s.cfg)
+	zzsymAssert(zzsymAnd(a == nil, err == nil), "rs/flight0_generate_ok")
+	pkts, a, err := flight1Generate(c.conn, c.state, c.cache, c.cfg)
+	zzsymAssert(zzsymAnd(a == nil, err == nil), "rs/flight1_generate_ok")
+	zzHsSend(c, s, pkts)
+	next, a, err := flight0Parse(ctx, s.conn, s.state, s.cache, s.cfg)
+	if a != nil || err != nil {
+		zzsymCover("server_rejects_hello")
+		return
+	}
+	zzsymAssert(next == Flight4b, "rs/server_resumes_known_session")
+	pkts, a, err = flight4bGenerate(s.conn, s.state, s.cache, s.cfg)
+	if a != nil || err != nil {
+		zzsymCover("server_aborts_flight4b")
+		return
+	}
+	zzHsSend(s, c, pkts)
+	cnext, a, err := flight1Parse(ctx, c.conn, c.state, c.cache, c.cfg)
+	if a != nil || err != nil {
+		zzsymCover("client_rejects_server_flight")
+		return
+	}
+	zzsymAssert(cnext == Flight5b, "rs/client_resumes")
+	pkts, a, err = flight5bGenerate(c.conn, c.state, c.cache, c.cfg)
+	zzsymAssert(zzsymAnd(a == nil, err == nil), "rs/flight5b_generate_ok")
+	zzHsSend(c, s, pkts)
+	snext, a, err := flight4bParse(ctx, s.conn, s.state, s.cache, s.cfg)
+	zzsymAssert(zzsymAnd(a == nil, err == nil), "rs/server_accepts_client_finished")
+	zzsymAssert(snext == Flight4b, "rs/server_done")
+
+	cs, ss := c.state, s.state
+	zzsymAssert(zzsymEqBytes(cs.MasterSecret, secret), "rs/client_uses_stored_master_secret")
+	zzsymAssert(zzsymEqBytes(ss.MasterSecret, secret), "rs/server_uses_stored_master_secret")
+	zzsymAssert(zzsymEqBytes(cs.SessionID, sid) && zzsymEqBytes(ss.SessionID, sid), "rs/same_session_id")
+	zzHsAssertNegotiated(w, true)
+	zzsymAssert(len(zzHsDHLog) == 0, "rs/no_key_agreement_when_resuming")
+	zzsymAssert(len(cs.PeerCertificates) == 0 && len(ss.PeerCertificates) == 0, "rs/no_certificates_when_resuming")
+	zzsymAssert(len(zzHsCipherLog) == 2, "rs/one_cipher_per_side")
+	sc, cc := zzHsCipherLog[0], zzHsCipherLog[1] // the server initialises first (flight0Parse)
+	zzsymAssert(cc.alg == sc.alg, "rs/same_record_protection")
+	zzsymAssert(zzsymEqBytes(cc.localKey, sc.remoteKey) && zzsymEqBytes(cc.remoteKey, sc.localKey), "rs/write_keys_mirrored")
+	zzsymAssert(zzsymEqBytes(cc.localIV, sc.remoteIV) && zzsymEqBytes(cc.remoteIV, sc.localIV), "rs/write_ivs_mirrored")
+	zzsymAssert(zzsymEqBytes(cc.localMAC, sc.remoteMAC) && zzsymEqBytes(cc.remoteMAC, sc.localMAC), "rs/mac_keys_mirrored")
+	zzsymAssert(len(cc.localKey) > 0, "rs/keys_nonempty")
+	zzsymCover("resumed")
 }
